@@ -1,5 +1,6 @@
 import Np.Proofs.Dispatch
 import Np.Model.Patterns
+import Np.Proofs.ConstPatterns
 /-! C11 — on constant polynomials every mirrored function behaves exactly like numpy: pattern theorems and the
 completeness of the classification over the regenerated registries -/
 namespace Np.Props.C11
@@ -74,6 +75,61 @@ theorem tonumpy_reads_constant_row [BEq S] [LawfulBEq S] (p : Poly S) (c : S)
   congr 1
   unfold lookup
   rw [find_row p.terms _ c hrow hnd]
+
+/-! ### on constants the executable operations ARE numpy's operations on the values (Np/Proofs/ConstPatterns.lean) -/
+section patterns
+open Shape MvPolynomial
+
+/-- a well-formed polynomial (array) is constant with value `c` exactly when it denotes `C c` -/
+theorem constant_iff {S : Type} [CommSemiring S] [BEq S] [LawfulBEq S] (p : Poly S) (c : S) (hw : WF p) :
+    toNumpy p = some c ↔ den p = C c := toNumpy_iff_den_C p c hw
+
+/-- arithmetic pattern: `+`, `-`, `*`, unary `-` of constants are the numeric operations on the values -/
+theorem const_arith {S : Type} [CommRing S] [BEq S] [LawfulBEq S] (rc rn : Bool) (a b : Poly S) (ca cb : S)
+    (ha : WF a) (hb : WF b) (h1 : toNumpy a = some ca) (h2 : toNumpy b = some cb) :
+    toNumpy (add rc rn a b) = some (ca + cb) ∧ toNumpy (sub rc rn a b) = some (ca - cb) ∧
+    toNumpy (neg rc rn a) = some (-ca) ∧
+    ∃ r, multiply rc rn a b = some r ∧ WF r ∧ toNumpy r = some (ca * cb) :=
+  ⟨toNumpy_add rc rn a b ca cb ha hb h1 h2, toNumpy_sub rc rn a b ca cb ha hb h1 h2, toNumpy_neg rc rn a ca ha h1,
+    toNumpy_multiply_total rc rn a b ca cb ha hb h1 h2⟩
+
+variable {R : Type} [CommSemiring R] [BEq R] [LawfulBEq R]
+
+/-- gather pattern (every shape function, indexing form): the same index gather on the numeric array -/
+theorem const_gather (rc rn : Bool) (a : Arr R) (c : Vec R (size a.shape)) (hw : a.WF)
+    (h : toNumpy a.poly = some c) (outShape idx : List Nat) :
+    toNumpy (gatherOp rc rn [a] outShape idx).poly = some (gatherFill (size outShape) idx c) :=
+  toNumpy_gatherOp rc rn a c hw h outShape idx
+
+/-- linear pattern (sum, cumsum, mean, diff, …): the same weighted sums of the numeric array -/
+theorem const_linear (rc rn : Bool) (a : Arr R) (c : Vec R (size a.shape)) (hw : a.WF)
+    (h : toNumpy a.poly = some c) (outShape : List Nat) (W : List (List (Nat × R))) :
+    toNumpy (linearOp rc rn a outShape W).poly = some (linearCol (size outShape) W c) :=
+  toNumpy_linearOp rc rn a c hw h outShape W
+
+/-- product pattern (prod) and bilinear pattern (inner, outer, matmul) -/
+theorem const_prod (rc rn : Bool) (a : Arr R) (c : Vec R (size a.shape)) (hw : a.WF)
+    (h : toNumpy a.poly = some c) (outShape : List Nat) (groups : List (List Nat)) :
+    ∃ p : Poly (Vec R (size outShape)), prodOp rc rn a outShape groups = some ⟨outShape, p⟩ ∧ WF p ∧
+      toNumpy p = some (groups.foldl (fun acc g => acc * gatherFill (size outShape) g c) 1) :=
+  toNumpy_prodOp rc rn a c hw h outShape groups
+theorem const_bilinear (rc rn : Bool) (a b : Arr R) (ca : Vec R (size a.shape)) (cb : Vec R (size b.shape))
+    (hwa : a.WF) (hwb : b.WF) (ha : toNumpy a.poly = some ca) (hb : toNumpy b.poly = some cb)
+    (outShape : List Nat) (pairs : List (List Nat × List Nat)) :
+    ∃ p : Poly (Vec R (size outShape)), bilinearOp rc rn a b outShape pairs = some ⟨outShape, p⟩ ∧ WF p ∧
+      toNumpy p = some (pairs.foldl
+        (fun acc p => acc + gatherFill (size outShape) p.1 ca * gatherFill (size outShape) p.2 cb) 0) :=
+  toNumpy_bilinearOp rc rn a b ca cb hwa hwb ha hb outShape pairs
+
+/-- ordering pattern: on constants every comparison operator is the numeric comparison of the values, whatever the
+sort options; `==`/`!=` are numeric equality -/
+theorem const_compare {n : Nat} (lt : R → R → Bool) (op : CmpOp) (graded reverse : Bool) (a b : Poly (Vec R n))
+    (ca cb : Vec R n) (ha : WF a) (hb : WF b) (h1 : toNumpy a = some ca) (h2 : toNumpy b = some cb) (i : Fin n) :
+    (compareArr lt op graded reverse a b).get i = op.rel lt (ca.get i) (cb.get i) ∧
+    (equalArr a b).get i = (ca.get i == cb.get i) ∧ (notEqualArr a b).get i = (ca.get i != cb.get i) :=
+  ⟨compareArr_const lt op graded reverse a b ca cb ha hb h1 h2 i, equalArr_const a b ca cb ha hb h1 h2 i,
+    notEqualArr_const a b ca cb ha hb h1 h2 i⟩
+end patterns
 
 /-- non-vacuity: numpy.negative on the constant [2, -1] stored with a retained zero column -/
 example : (unaryDispatch false true (fun x : Int => -x)
